@@ -50,13 +50,15 @@ Section Generic.
   Definition gq_transfer (r : rule) (a b : Sc O) : rule :=
     map (fun nw => (smul O half (sadd O (smul O (ssub O b a) (fst nw)) (sadd O b a)),
                     smul O (smul O half (ssub O b a)) (snd nw))) r.
-  (* the adapter in Integrator::integrate: two real passes (re, im) with the same rule, degree.max(2) points *)
+  (* the oracle the translated Gauss-Legendre arms (Gen/Integration.v: integrate_GaussLegendre, integrate2d_GaussLegendre) are
+     instantiated with: a table of rules indexed by the number of points, applied as gauss-quad's integrate does *)
   Definition gl_points (degree : Z) : Z := Z.max degree 2.
-  Definition integrate_GaussLegendre (table : Z -> rule) (func : Sc O -> Vc O) (a b : Sc O) (degree : Z) : Vc O :=
-    apply_rule (gq_transfer (table (gl_points degree)) a b) func.
-  Definition integrate2d_GaussLegendre (table : Z -> rule) (func : Sc O -> Sc O -> Vc O) (a b c d : Sc O) (degree : Z) : Vc O :=
-    let r := table (gl_points degree) in
-    apply_rule2 (tensor (gq_transfer r a b) (gq_transfer r c d)) func.
+  Definition rule_oracle (table : Z -> rule) : Z -> Sc O -> Sc O -> (Sc O -> Sc O) -> Sc O :=
+    fun n a b g => ssum O (map (fun nw => smul O (snd nw) (g (fst nw))) (gq_transfer (table n) a b)).
+  (* the other two external integrators are never run in the model; these placeholders only fill the section variables of
+     the generated adapters when the Gauss-Legendre arm is evaluated *)
+  Definition no_cc : (Sc O -> Sc O) -> Sc O -> Sc O -> Sc O -> Sc O := fun _ _ _ _ => s_of_Z O 0.
+  Definition no_gk : Sc O -> nat -> (Vc O -> Vc O) -> Vc O -> Vc O -> Vc O := fun _ _ _ _ _ => vzero O.
 
   (* polynomials with complex coefficients at a real argument: sum_k c_k x^k, Horner *)
   Definition cpoly := list (Vc O).
